@@ -121,6 +121,20 @@ Section CacheProofs.
     - apply stateful_final.
   Qed.
 
+  (* the answer is a function of what is registered under the two names used *)
+  Lemma stateful_depends_only h h' sn pn c :
+    reg_pset h pn = reg_pset h' pn ->
+    (forall n, sn = Some n -> reg_schema h n = reg_schema h' n) ->
+    stateful (run h) sn pn c = stateful (run h') sn pn c.
+  Proof.
+    intros Hp Hs. unfold Ffi.stateful.
+    destruct (inv_psets h pn) as [P1 _]. destruct (inv_psets h' pn) as [P1' _].
+    rewrite P1, P1', Hp.
+    destruct sn as [n|]; [|reflexivity].
+    destruct (inv_schemas h n) as [S1 _]. destruct (inv_schemas h' n) as [S1' _].
+    rewrite S1, S1', (Hs n eq_refl). reflexivity.
+  Qed.
+
   Lemma failed_preparse_noop (st : state) n s :
     (parse_pset s = None -> step st (PreparsePset n s) = (st, AParse false)) /\
     (parse_schema s = None -> step st (PreparseSchema n s) = (st, AParse false)).
@@ -211,13 +225,35 @@ Proof.
   now rewrite nodup_ids_from.
 Qed.
 
-Lemma assembly_set_fails B (b1 b2 : B) ps : assemble (SetOf (b1 :: b2 :: ps)) = None.
+Lemma mem_str_app x l1 l2 : mem_str x (l1 ++ x :: l2) = true.
 Proof.
-  unfold assemble. cbn [assign_ids map fst nodup_strs mem_str].
-  rewrite str_eqb_refl. reflexivity.
+  induction l1; cbn [app mem_str]; [now rewrite str_eqb_refl | rewrite IHl1; apply Bool.orb_true_r].
 Qed.
 
-Lemma assembly_set_small B (ps : list B) : (length ps <= 1)%nat -> assemble (SetOf ps) = Some (assign_ids (SetOf ps)).
+Lemma nodup_strs_dup x l1 l2 l3 : nodup_strs (l1 ++ x :: l2 ++ x :: l3) = false.
+Proof.
+  induction l1; cbn [app nodup_strs].
+  - now rewrite mem_str_app.
+  - rewrite IHl1. apply Bool.andb_false_r.
+Qed.
+
+(* two elements of the same kind anywhere in the array collide *)
+Lemma assembly_set_fails B (k : bool) (b1 b2 : B) l1 l2 l3 :
+  assemble (SetOf (l1 ++ (k, b1) :: l2 ++ (k, b2) :: l3)) = None.
+Proof.
+  unfold assemble. cbn [assign_ids]. rewrite !map_app. cbn [map]. rewrite !map_app. cbn [map fst snd].
+  now rewrite nodup_strs_dup.
+Qed.
+
+Lemma assembly_set_refuted : exists ps : list (bool * unit),
+  (forall kb, In kb ps -> fst kb = false) /\ assemble (SetOf ps) = None.
+Proof.
+  exists [(false, tt); (false, tt)]. split.
+  - intros kb [H|[H|[]]]; now subst.
+  - vm_compute. reflexivity.
+Qed.
+
+Lemma assembly_set_small B (ps : list (bool * B)) : (length ps <= 1)%nat -> assemble (SetOf ps) = Some (assign_ids (SetOf ps)).
 Proof.
   destruct ps as [|b [|b' ps]]; cbn [length]; intros H; try lia; reflexivity.
 Qed.
